@@ -10,11 +10,11 @@ CLAIMED = {
  "C01": ("exploration", "seeded search over designs x peer model choice (native/walk/lexmin/lexmax/cmsgen) x transport (in-process fake, fake CLI) x I/O and peer faults; every returned sequence is checked against an independent reference semantics", "reference-model oracle (refsem V_max)", "6 C01"),
  "C02": ("exploration", "IterateSATGen exhausted under two different peer policies per design; returned multiset compared with an independent enumeration; protocol liveness (solver calls = returned + 1); order independence", "reference-model oracle + schedule-independence + protocol call count", "6 C02"),
  "C04": ("exploration", "RandomGen (and IterateGen/UniformGen when they delegate) under scripted RNG scripts incl. corner scripts and needle cases (10^5-3*10^5 candidates rejected in a row before a valid one exists); every returned sequence checked against the reference semantics", "reference-model oracle under scripted PRNG", "6 C04"),
- "C05": ("exploration", "RandomGen driven to exhaustion (in 30% of the runs after a RandomGen/IterateSATGen call on a sibling design with other weights in the same process); enumerator instrumented from outside; bijection candidates<->valid sequences and exact equal-probability ledger over the ranges the library passed to randrange", "exact probability ledger + bijection against reference enumeration", "6 C05"),
+ "C05": ("exploration", "RandomGen driven to exhaustion (in 30% of the runs after a RandomGen/IterateSATGen call on a sibling design with other weights in the same process); enumerator instrumented from outside; bijection candidates<->valid sequences and exact equal-probability ledger over the ranges the library passed to randrange (N equally likely, completely visited candidates have probability 1/N each)", "exact probability ledger + bijection against reference enumeration", "6 C05"),
  "C06": ("exploration", "RandomGen asked for more than exists (in 30% of the runs after a call on a sibling design with other weights in the same process): returned multiset = independent enumeration, bounded liveness on integer draws, metrics solution_count where the statement applies", "reference-model oracle + bounded liveness", "6 C06"),
  "C07": ("exploration", "IterateSATGen and RandomGen both exhausted in one world on the same design; set equality by level names; no reference semantics involved", "two-realisations-agree (metamorphic) oracle", "6 C07"),
  "C08": ("exploration", "fault-free runs only: every legal peer behaviour and transport, and in 12% of the runs a second caller that runs a whole synthesize_trials of its own at the instant the first call waits for its solver; any exception escaping synthesize_trials for IterateSATGen/RandomGen/CMSGen/UniGen on a constructor-accepted design is a violation", "totality oracle over legal peer behaviours", "6 C08"),
- "C09": ("exploration", "IterateSATGen/RandomGen/IterateGen with n in {0,1,|V|-1,|V|,|V|+1,3|V|}; length = min(n,|V|), no printed sequence more often than its reference multiplicity; under peer/IO faults fewer may return, never duplicates", "reference-model oracle with fault-relaxed count", "6 C09"),
+ "C09": ("exploration", "IterateSATGen/RandomGen/IterateGen with n in {0,1,|V|-1,|V|,|V|+1,3|V|}; length = min(n,|V|), no printed sequence more often than its reference multiplicity; only a solver answering 'unknown' excuses a short list, never duplicates; beyond the enumeration bound (unweighted designs, up to 3000 sequences) the sampler is exhausted and the returned sequences are compared with each other; RandomGen is passed as one generator object reused across the calls of a run in 40% of the worlds", "reference-model oracle with fault-relaxed count", "6 C09"),
  "C19": ("exploration", "seeded histories of 3-12 public calls on one block (CrossBlock or a combinator block; all strategies, print/tabulate/csv/tuples/dicts/mismatch) with stdout EPIPE, ENOSPC and a user interrupt at a seeded line injected inside calls; block state invariants after every call; every later synthesize_trials must succeed (fresh-block twin as reference) with the same columns and valid sequences", "history machine with state invariants + fresh-twin reference", "6 C19"),
  "C20": ("exploration", "same histories; conversions and CSV files (read back from the simulated file system) must reproduce every declared factor's returned values, never expose internal factors; CSV sub-check skipped for calls hit by an injected I/O fault", "history machine + output-equivalence oracle over SimFS", "6 C20"),
  "C03": ("exploration", "the block first gets a seeded call history in 30% of the runs (IterateILPGen failing without gurobipy or working against the fake Gurobi peer, RandomGen, IterateGen, UniformGen, print); then ideal-uniform ('cycle') sampler peers: one full cycle over all models of the clauses the library handed to pycmsgen / all projections handed to pyunigen; multiset of returned sequences must equal exhausted IterateSATGen's (one blocking clause per trial-sequence assignment), so no sequence has several models or none", "cycle sampler peer + conservation oracle (bounded model enumeration inside the fake)", "6 C03"),
